@@ -33,7 +33,9 @@ def _case(draw):
         at = draw(st.one_of(st.floats(0.0, R), st.floats(0.0, zero_ft), st.sampled_from([0.0, R, R / 2, zero_ft / 2])))
         hs = sorted(math.exp(draw(st.floats(math.log(0.01), math.log(360.0)))) for _ in range(2))
         u = draw(st.one_of(st.none(), st.sampled_from(DIST)))
-        qs.append({"at_ft": at, "h_in": hs, "unit": u, "look": draw(st.one_of(st.none(), st.floats(-0.5, 0.5)))})
+        qs.append({"at_ft": at, "h_in": hs, "unit": u, "look": draw(st.one_of(st.none(), st.floats(-0.5, 0.5))),
+                   # history on the same result object: an earlier look-up of the same *number* in another unit
+                   "decoy_unit": draw(st.one_of(st.none(), st.sampled_from(DIST)))})
     beyond = R * (1 + draw(st.floats(0.01, 1.0))) + 10.0
     return {"shot": spec, "R": R, "zero_ft": zero_ft, "step": R / n, "queries": qs, "beyond_ft": beyond,
             "extra_time": draw(st.sampled_from([0.0, 0.0, 0.1]))}
@@ -75,6 +77,14 @@ def check(case):
             kw = {}
             if q["look"] is not None:
                 kw["look_angle"] = pb.Angular.Radian(q["look"])
+            if q.get("decoy_unit"):
+                arg = _q(at_ft, q["unit"])
+                number = arg if q["unit"] is None else arg.unit_value
+                hit.index_at_distance(Unit[q["decoy_unit"]](number))
+                try:
+                    hit.get_at_distance(Unit[q["decoy_unit"]](number))
+                except ArithmeticError:
+                    pass
             ds = hit.danger_space(_q(at_ft, q["unit"]), D.Inch(h_in), **kw)
             half = ds.target_height.raw_value / 2.0
             if abs(ds.target_height.raw_value - h_in) > 1e-9 * h_in:
@@ -122,6 +132,7 @@ def check(case):
     # beyond the computed trajectory
     for u in (None, "Meter"):
         try:
+            hit.index_at_distance(D.Foot(max(case["beyond_ft"], rows[-1].distance.raw_value / 12.0 + 10.0) / (3.0 if u is None else 0.3048)))
             hit.danger_space(_q(max(case["beyond_ft"], rows[-1].distance.raw_value / 12.0 + 10.0), u), D.Inch(10.0))
         except ArithmeticError:
             continue
